@@ -117,9 +117,9 @@ var specs = map[string]spec{
 	},
 	"C10": {
 		World: "e2e", Level: "exploration", QuickS: 40, ThoroughS: 900,
-		Rule: "three quarters of the run indices (server clauses): cases = nbhttp.Engine in IOMod {NonBlocking, Blocking, Mixed} x epoll mode {LT, ET, ET+ONESHOT} x 1-2 pollers x executor {inline, taskpool of 2 / 4}, 1-4 concurrent raw simulated client connections, each with 1-4 requests (HTTP/1.0 / 1.1, Connection variants, Content-Length or chunked request bodies up to 20000 bytes, response bodies from {0,1,100,1000,4096,65535,65536,70000}, handler sleeps / yields / Flush mid-body), pipelining window 1-4, client write size {1,7,64,all}; kernel: send capacity 64B-256KiB, in-flight delivery, short reads/writes, withheld readiness; oracle per connection: the received stream decodes (http.ReadResponse) to exactly one answer per written request, in order, each echoing its request's unique id with the keyed body; the handler sees the keyed request body; connection kept / closed as version and Connection header dictate; no id of another connection; handlers of one connection never overlap; non-trivial = >= 2 connections and a pipelined request; distinct = context-switch sequence hash; 20% of these cases run over TLS (the server side is llib's TLS, transformed like nbio; the clients are crypto/tls clients); 25% of the handlers announce Content-Length and write the body in two steps; 15% of the clients whose last exchange keeps the connection end with a request that is malformed from its first byte immediately followed by a valid one (same write / next TLS record): Config.OnRequest and the handler must not see the valid one (C08 end to end). One quarter (client clause): nbhttp.Client (connection pool, MaxConnsPerHost 1-4) or nbhttp.ClientConn (pipelined) against a scripted server on the simulated kernel that answers (Content-Length / chunked, written in pieces), delays, closes before or in the middle of an answer, sends garbage or stalls; dial attempts fail as planned; 1-3 caller goroutines, 1-6 requests, Timeout / IdleConnTimeout on the simulated clock, default pool or goroutine-per-call client executor; oracles: each callback exactly once (after Client.Close and quiescence for requests still pending), never neither response nor error, a response carries the id and body of its own request",
+		Rule: "three quarters of the run indices (server clauses): cases = nbhttp.Engine in IOMod {NonBlocking, Blocking, Mixed} x epoll mode {LT, ET, ET+ONESHOT} x 1-2 pollers x executor {inline, taskpool of 2 / 4}, 1-4 concurrent raw simulated client connections, each with 1-4 requests (HTTP/1.0 / 1.1, Connection variants, Content-Length or chunked request bodies up to 20000 bytes, response bodies from {0,1,100,1000,4096,65535,65536,70000}, handler sleeps / yields / Flush mid-body), pipelining window 1-4, client write size {1,7,64,all}; kernel: send capacity 64B-256KiB, in-flight delivery, short reads/writes, withheld readiness; oracle per connection: the received stream decodes (http.ReadResponse) to exactly one answer per written request, in order, each echoing its request's unique id with the keyed body; the handler sees the keyed request body; connection kept / closed as version and Connection header dictate; no id of another connection; handlers of one connection never overlap; non-trivial = >= 2 connections and a pipelined request; distinct = context-switch sequence hash; 20% of these cases run over TLS (the server side is llib's TLS, transformed like nbio; the clients are crypto/tls clients); 25% of the handlers announce Content-Length and write the body in two steps; 15% of the clients whose last exchange keeps the connection end with a request that is malformed from its first byte immediately followed by a valid one (same write / next TLS record): Config.OnRequest and the handler must not see the valid one (C08 end to end). One quarter (client clause): nbhttp.Client (connection pool, MaxConnsPerHost 1-4) or nbhttp.ClientConn (pipelined) against a scripted server on the simulated kernel that answers (Content-Length / chunked, written in pieces), delays, closes before or in the middle of an answer, sends garbage or stalls; dial attempts fail as planned; 1-3 caller goroutines, 1-6 requests, Timeout / IdleConnTimeout on the simulated clock, default pool or goroutine-per-call client executor, 20% over https (llib's TLS client, transformed); oracles: each callback exactly once (after Client.Close and quiescence for requests still pending), never neither response nor error, a response carries the id and body of its own request",
 		Real: []string{"nbhttp.Engine, Parser, ServerProcessor, Response, Client, ClientConn, ClientProcessor, lmux, nbio.Engine/Conn/poller, taskpool, llib std/crypto/tls (transformed real code)", "net/http types and http.ReadResponse as client-side decoder"},
-		Stub: append([]string{"TLS clients: the standard library's crypto/tls (untransformed, the independent counterpart); HTTPS in nbhttp.Client, proxies and redirects: NOT explored", "scripted HTTP server of the client clause (harness code on the simulated network)"}, stubKernel...),
+		Stub: append([]string{"TLS clients of the server clauses and the TLS side of the scripted server of the client clause: the standard library's crypto/tls (untransformed, the independent counterpart; the scripted server is limited to TLS 1.2, see DESIGN.md 11.2); proxies and redirects of nbhttp.Client: NOT explored", "scripted HTTP server of the client clause (harness code on the simulated network)"}, stubKernel...),
 		Assumptions: append([]string{"requests pipelined behind an exchange that closes the connection may be dropped", "client clause: 'an error' is allowed for any request by the statement, so a request that fails in a fault-free run is only counted (probe client_request_failed_in_fault_free_run)"}, assumeKernel...),
 	},
 	"C14": {
